@@ -15,6 +15,7 @@ import (
 	"verif/internal/c14"
 	"verif/internal/c15"
 	"verif/internal/c16"
+	"verif/internal/c17"
 	"verif/internal/c18"
 	"verif/internal/c19"
 	"verif/internal/mach"
@@ -52,6 +53,8 @@ func main() {
 		o = c18.Run(*seed, *n)
 	case "c14":
 		o = c14.Run(*seed, *n)
+	case "c17":
+		o = c17.Run(*seed, *n)
 	case "c16":
 		o = c16.Run(*seed, *n)
 	case "c15":
